@@ -101,6 +101,11 @@ def cases(tier):
         for npx in (2, 4, 9):
             yield Case("stack:bp:npx=%d:depth=%d" % (npx, depth),
                        {"kind": "stack", "fn": "bp", "par": npx, "depth": depth, "alpha": "A12"})
+        # fractions given as such, including exact ties of fraction * n_pixels (2.5, 4.5, 6.5 pixels of 9): whatever
+        # the rounding rule, the stack and the single frame must use the same one
+        for fr in ("0.5", "2.5/9", "6.5/9", "0.3", "0.7", "3.5/9"):
+            yield Case("stack:bp:frac=%s:depth=%d" % (fr, depth),
+                       {"kind": "stack", "fn": "bp", "par": 0, "frac": fr, "depth": depth, "alpha": "A12"})
     # the same stacks stored in other dtypes (camera counts are integers): stack == frames must not depend on it
     for dt in ("int64", "uint8", "int32", "float32"):
         for depth in ((1, 2) if tier == "quick" else (1, 2, 3)):
@@ -384,6 +389,9 @@ def _stack(p):
     def call(a):
         if fn == "cog":
             return _xy(C.centre_of_gravity(a.copy(), threshold=par))
+        if p.get("frac"):
+            num, _, den = p["frac"].partition("/")
+            return _xy(C.brightest_pixel(a.copy(), float(num) / float(den) if den else float(num)))
         return _xy(C.brightest_pixel(a.copy(), _frac_for(par, npix)))
 
     single = [call(im) for im in alpha]
